@@ -17,6 +17,7 @@
 From Coq Require Import NArith List Bool.
 From Pi2 Require Import ML.Syntax ML.Subst ML.Machine ML.Journal
   Interp.Calls Interp.Facts Interp.RoundTrip Interp.Sim Interp.Module Interp.ModuleFacts.
+From Pi2 Require Import Interp.SerialLib Gen.PySerial Interp.GenPySerialAgree.
 Import ListNotations.
 Open Scope N_scope.
 
@@ -177,3 +178,58 @@ Proof.
   exists (map N.of_nat (seq 0 256)). split; [reflexivity|]. split; [vm_compute; reflexivity|].
   split; [vm_compute; reflexivity|]. vm_compute. discriminate.
 Qed.
+
+(* ---------------------------------------------------------------------------------------------- *)
+(** Stated of the bytes written by the methods REGENERATED from serializing_interpreter.py (Gen/PySerial.v,
+    opcodes from instruction.py).  The traversal of proof.py / the memoiser ([gamma_calls], [mgamma_calls])
+    and the tracker stay hand-written models, tied differentially. *)
+Theorem C03_source_gamma_exact : forall f m cl cs t1 tr1 gb,
+  gamma_calls m = Some cs ->
+  gen_ser_run [] (fresh_tracker Gamma cl) cs = Some (t1, tr1, gb) -> wf_run (fresh_tracker Gamma cl) cs ->
+  agrees f t1 ->
+  gamma_axioms guards_sound gb = map (rn f) (map expand (flat_axioms m)).
+Proof. intros f m cl cs t1 tr1 gb Hc H. rewrite gen_ser_run_agrees in H. exact (gamma_exact f m cl cs t1 tr1 gb Hc H). Qed.
+Print Assumptions C03_source_gamma_exact.
+
+Theorem C03_source_gamma_exact_opt : forall sel m cl cs mem1 t1 tr1 gb,
+  mgamma_calls sel m = Some (cs, mem1) ->
+  gen_ser_run [] (fresh_tracker Gamma cl) cs = Some (t1, tr1, gb) -> wf_run (fresh_tracker Gamma cl) cs ->
+  map (unrn t1) (gamma_axioms guards_sound gb) = map expand (flat_axioms m).
+Proof. intros sel m cl cs mem1 t1 tr1 gb Hc H. rewrite gen_ser_run_agrees in H. exact (gamma_exact_names sel m cl cs mem1 t1 tr1 gb Hc H). Qed.
+Print Assumptions C03_source_gamma_exact_opt.
+
+Theorem C03_source_journal_exact : forall f cs tbl tr st tblF trF bs,
+  R f tr st -> gen_ser_run tbl tr cs = Some (tblF, trF, bs) -> wf_run tr cs -> agrees f tblF ->
+  journal guards_sound (t_phase tr) bs st = map (rn f) (pub_of cs).
+Proof.
+  intros f cs tbl tr st tblF trF bs HR H Hw Hf. rewrite gen_ser_run_agrees in H.
+  exact (proj1 (journal_run f cs tbl tr st tblF trF bs HR H Hw Hf)).
+Qed.
+
+(** what the translated symbol() does with its dict: distinct numbers, never re-numbered, never above 255 *)
+Theorem C03_source_symbol_numbering : forall tbl tr name tbl' bs,
+  gen_emit_tbl tbl tr (CSymbol name) = Some (tbl', bs) ->
+  exists i, idx_of name tbl' = Some i /\ bs = [4; N.of_nat i] /\ N.of_nat i < 256 /\
+            (forall a j, idx_of a tbl = Some j -> idx_of a tbl' = Some j).
+Proof.
+  intros tbl tr name tbl' bs H. rewrite gen_emit_tbl_agrees in H. pose proof (emit_bytes _ _ _ _ _ H) as Hb.
+  cbn in H. destruct (idx_of name tbl) as [i|] eqn:Ei.
+  - apply with_tbl_some in H. destruct H as [-> H]. apply bytes_some in H. subst bs.
+    exists i. split; [exact Ei|]. split; [reflexivity|]. split; [|auto].
+    apply Forall_inv_tail in Hb. apply Forall_inv in Hb. exact Hb.
+  - apply with_tbl_some in H. destruct H as [-> H]. apply bytes_some in H. subst bs.
+    exists (length tbl). split; [unfold idx_of in *; rewrite (idx_from_app_miss _ _ _ Ei); reflexivity|].
+    split; [reflexivity|]. split.
+    + apply Forall_inv_tail in Hb. apply Forall_inv in Hb. exact Hb.
+    + intros a j Ha. unfold idx_of in *. apply idx_from_app_hit. exact Ha.
+Qed.
+Print Assumptions C03_source_symbol_numbering.
+
+Theorem C03_source_refuse_over_255 : forall tbl tr name,
+  idx_of name tbl = None -> (256 <= length tbl)%nat -> gen_emit_tbl tbl tr (CSymbol name) = None.
+Proof. intros. rewrite gen_emit_tbl_agrees. apply refuse_symbol_over_255; assumption. Qed.
+
+Theorem C03_source_emit_bytes : forall tbl tr c tbl' bs,
+  gen_emit_tbl tbl tr c = Some (tbl', bs) -> Forall (fun b => b < 256) bs.
+Proof. intros tbl tr c tbl' bs H. rewrite gen_emit_tbl_agrees in H. exact (emit_bytes _ _ _ _ _ H). Qed.
+Print Assumptions C03_source_emit_bytes.
